@@ -226,7 +226,10 @@ def sym_grid(nr, ntheta, nsc, tag=""):
     g.f["radii_"].set(SArr("radii_" + tag, nr, gen=lambda i: dag.atom("r%s_%d" % (tag, i))))
     g.f["angles_"].set(SArr("angles_" + tag, ntheta + 1, gen=lambda j: dag.atom("th%s_%d" % (tag, j))))
     g.f["radial_spacings_"].set(SArr("radial_spacings_" + tag, nr - 1, gen=lambda i: dag.atom("h%s_%d" % (tag, i))))
-    g.f["angular_spacings_"].set(SArr("angular_spacings_" + tag, ntheta, gen=lambda j: dag.atom("k%s_%d" % (tag, j))))
+    # admissible grids have an antipodal partner for every angle (checkParameters): the angular spacing pattern has
+    # period ntheta/2.  (ntheta odd cannot be admissible; kept independent there.)
+    half = ntheta // 2 if ntheta % 2 == 0 else ntheta
+    g.f["angular_spacings_"].set(SArr("angular_spacings_" + tag, ntheta, gen=lambda j: dag.atom("k%s_%d" % (tag, j % half))))
     return g
 
 
